@@ -145,6 +145,9 @@ def summing(ctx):
              ('%s in [_A.rel_id, None]' % REL, lambda e, s, tr: _rel_match(s)),
              ('%s in (_A.rel_id, None)' % REL, lambda e, s, tr: _rel_match(s)),
              ('%s is None' % REL, lambda e, s, tr: s['filter'] == 'none'),
+             ('%s in _A.rel_id' % REL, lambda e, s, tr: s['filter'] in ('match', 'substr') and ((not s['is_int']) or s['normalised'])),
+             ('_A.rel_id.startswith(%s)' % REL, lambda e, s, tr: s['filter'] in ('match', 'substr')),
+             ('_A.rel_id.endswith(%s)' % REL, lambda e, s, tr: s['filter'] in ('match', 'substr')),
              ('%s == _A.rel_id' % REL, lambda e, s, tr: _rel_eq(s)),
              ('_A.rel_id == %s' % REL, lambda e, s, tr: _rel_eq(s)),
              ('%s != _A.rel_id' % REL, lambda e, s, tr: not _rel_eq(s)),
@@ -152,7 +155,7 @@ def summing(ctx):
     effects = [('_N = _V', counter_init), ('_N += _V', add_link), ("%s = 'R%%d' %% %s" % (REL, REL), norm_rel)]
     iters = [('_M.associations', lambda e, s, tr: ['ass'])]
     it = absint.Interp(fn, atoms, effects, iters=iters)
-    for filt, is_int in itertools.product(['none', 'match', 'nomatch'], [False, True]):
+    for filt, is_int in itertools.product(['none', 'match', 'nomatch', 'substr'], [False, True]):
         if filt == 'none' and is_int:
             continue
         state = {'filter': filt, 'is_int': is_int, 'normalised': False}
@@ -160,9 +163,10 @@ def summing(ctx):
         got = None
         if out.kind == 'return' and isinstance(out.value, ast.Name):
             got = sorted(state.get('cnt', {}).get(out.value.id, []))
-        want = [] if filt == 'nomatch' else ['source_link', 'target_link']
+        want = [] if filt in ('nomatch', 'substr') else ['source_link', 'target_link']
         desc = 'check_association_integrity(rel_id %s%s)' % ({'none': 'not given', 'match': 'equals the association\'s',
-                                                            'nomatch': 'differs'}[filt], ', as int' if is_int else '')
+                                                            'nomatch': 'differs', 'substr': 'is a proper part of the association\'s (R1 vs R10)'}[filt],
+                                                           ', as int' if is_int else '')
         r.check(got == want, '%s -> checks %s' % (desc, want), fn, construct=Q + 'check_association_integrity',
                 key='sum %s %s' % (filt, is_int),
                 msg='%s must add the results of %s; the code adds %s' % (desc, want or 'nothing', got))
